@@ -710,7 +710,9 @@ func init() {
 		if idx == nil {
 			return c11Val{nvals: 1, canon: "nil"}, nil
 		}
-		return c11Val{nvals: 1, canon: fmt.Sprint(idx.NumRefs()), sweep: func() { c11SweepTabix(idx) }}, nil
+		var w c11Discard
+		_ = tabix.WriteTo(&w, idx)
+		return c11Val{nvals: 1, canon: fmt.Sprintf("%d %d", idx.NumRefs(), w.n), sweep: func() { c11SweepTabix(idx) }}, nil
 	})
 	// --- FAI
 	c11Register("fai.ReadFrom", func(in []byte) (c11Val, error) {
